@@ -18,7 +18,7 @@ HOOKS = {
 
 ENGINES = [
     {'name': 'vf', 'path': 'vf/harness.py',
-     'serves_properties': ['C01', 'C02', 'C03', 'C04', 'C05', 'C06', 'C10', 'C07', 'C08', 'C09', 'C13', 'C15', 'C16', 'C17', 'C19', 'C20'],
+     'serves_properties': ['C01', 'C02', 'C03', 'C04', 'C05', 'C06', 'C10', 'C07', 'C08', 'C09', 'C13', 'C15', 'C16', 'C17', 'C18', 'C19', 'C20'],
      'kind_free_text': ('runtime monitoring driver: 16 worker processes import the real '
                         'openhtf from /repo, run enumerated + seeded cases, monitors '
                         'decide each property from observed events; witnesses are '
@@ -237,5 +237,21 @@ CHECKS = {
                  'runs churn; 1-20 consecutive runs counting RecordHandlers and logging after the end'),
         'note': ('MAC = six colon-separated hex octets in either case; across threads any interleaving is accepted, per '
                  'thread the emission order must hold; preemption bound 1 over logs.py lines'),
+    },
+    'C18': {
+        'level': 'exploration',
+        'technique': 'runtime monitoring under controlled schedules: gate scheduler (sys.monitoring line gates + cooperative locks) enumerating all preemption-bounded interleavings of watchers and updaters with a quiescence oracle; protocol-following watcher threads attached to whole Test runs with logical lost-update witnesses at quiescent points',
+        'text': ('(a) every line-level interleaving of W watchers x U updaters (W,U in {1,2}) on a minimal '
+                 'SubscribableStateMixin subclass and on UserInput (start_prompt / respond / remove_prompt), preemption bound '
+                 '3 for 1x1 down to 1 for 2x2 in the quick tier (unbounded 1x1 and bounds 2-4 in the thorough tier), split over '
+                 '16 DFS parts; at quiescence a watcher whose snapshot differs from the final state must hold a set event; (b) '
+                 'real Test runs with 1-3 watcher threads (snapshot, wait on the event, repeat), with and without yield '
+                 'injection, with DEBUG/INFO framework logging on and off: the run blocks at ten quiescent points (status '
+                 'RUNNING, running phase, scalar and dimensioned measurement values, log record, attachment, DUT id, phase '
+                 'finished, next phase, all phases finished during plug tearDown) and a frontend-aware plug prompt is answered '
+                 'through wait_for_plug_update; a watcher with an unset event and a snapshot lacking a change that is complete '
+                 'is a lost update; every watcher must end on COMPLETED; snapshots must not raise'),
+        'note': ('the mixin\'s _lock / UserInput._cond are replaced on the instance by cooperative locks; wall-clock time-outs '
+                 'only guard the harness (inconclusive), verdicts come from logical witnesses'),
     },
 }
